@@ -131,7 +131,8 @@ def decode_num(word):
 
 def split_compressed(proof):
     """proof tokens -> (labels, steps) where a step is an int >= 1 or 'Z'"""
-    assert proof[0] == '('
+    if not proof or proof[0] != '(' or ')' not in proof:
+        raise VerifyError('not a compressed proof')
     i = proof.index(')')
     labels = proof[1:i]
     letters = ''.join(proof[i + 1:])
@@ -159,6 +160,7 @@ class Verifier:
         self.strict = strict  # also check declarations: every symbol a declared constant or an active variable with an active $f
         self.frames = [Frame()]
         self.labels = {}      # label -> ('f', typecode, var) | ('e', toks) | ('assert', dvs, fhyps, ehyps, stmt)
+        self.used_labels = set()   # every label ever declared (labels are unique in the whole database, Metamath book 4.2.7)
         self.order = []       # labels in database order
         self.proved = {}
 
@@ -189,6 +191,9 @@ class Verifier:
                 raise VerifyError(f'{label}: symbol {t} is not declared')
             if need_float and t in allv and t not in floats:
                 raise VerifyError(f'{label}: variable {t} has no active $f statement')
+        if not need_float and (len(toks) != 2 or toks[1] not in allv):
+            # a $f statement: typecode and an ACTIVE VARIABLE (a declared constant is not enough)
+            raise VerifyError(f'{label}: {toks[1:]} is not an active variable')
 
     def run(self, stmts):
         for s in stmts:
@@ -204,8 +209,11 @@ class Verifier:
                     for t in s[1]:
                         if t not in allv:
                             raise VerifyError(f'$d: {t} is not an active variable')
-                if k in ('f', 'e', 'a', 'p') and s[1] in self.labels:
+                if k in ('f', 'e', 'a', 'p') and s[1] in self.used_labels:
+                    # also the label of a hypothesis whose block has been closed
                     raise VerifyError(f'label {s[1]} is defined twice')
+            if k in ('f', 'e', 'a', 'p'):
+                self.used_labels.add(s[1])
             if k == 'c':
                 fr.c.update(s[1])
             elif k == 'v':
@@ -271,25 +279,35 @@ class Verifier:
             stack.append(sub(stmt))
 
     def verify_proof(self, label, assertion, proof):
-        _, dvs, fhyps, ehyps, stmt = assertion
-        labels, steps = split_compressed(proof)
-        table = [f[0] for f in fhyps] + [e[0] for e in ehyps] + labels
+        _, _, fhyps, ehyps, stmt = assertion
+        # the $d conditions of a step are checked against ALL $d statements active at the $p (Metamath book 4.1.4),
+        # also those on dummy variables (`assertion[1]` only has the pairs of mandatory variables)
+        dvs = {p for fr in self.frames for p in fr.d}
         stack, saved = [], []
-        for st in steps:
-            if st == 'Z':
-                if not stack:
-                    raise VerifyError('Z on empty stack')
-                saved.append(list(stack[-1]))
-            elif st <= len(table):
-                lab = table[st - 1]
+        if proof and proof[0] != '(':
+            # a normal proof: a sequence of labels
+            for lab in proof:
                 if lab not in self.labels:
                     raise VerifyError(f'unknown label {lab}')
                 self.apply(stack, self.labels[lab], dvs)
-            else:
-                j = st - len(table) - 1
-                if j >= len(saved):
-                    raise VerifyError('reference to an unsaved step')
-                stack.append(list(saved[j]))
+        else:
+            labels, steps = split_compressed(proof)
+            table = [f[0] for f in fhyps] + [e[0] for e in ehyps] + labels
+            for st in steps:
+                if st == 'Z':
+                    if not stack:
+                        raise VerifyError('Z on empty stack')
+                    saved.append(list(stack[-1]))
+                elif st <= len(table):
+                    lab = table[st - 1]
+                    if lab not in self.labels:
+                        raise VerifyError(f'unknown label {lab}')
+                    self.apply(stack, self.labels[lab], dvs)
+                else:
+                    j = st - len(table) - 1
+                    if j >= len(saved):
+                        raise VerifyError('reference to an unsaved step')
+                    stack.append(list(saved[j]))
         if len(stack) != 1:
             raise VerifyError(f'{label}: stack has {len(stack)} entries at the end')
         if stack[0] != stmt:
@@ -428,6 +446,9 @@ class ProofBuilder:
         out = []
         for (_, _, var) in fhyps:
             out += self.term_steps(subst.get(var, var))
+        # essential hypotheses stated outside a block (variable-free) come first among `ehyps`: cited by their label
+        for (elab, _) in ehyps[:max(0, len(ehyps) - len(hyp_proofs))]:
+            out.append(elab)
         for hp in hyp_proofs:
             out += hp
         return out + [lab]
